@@ -184,7 +184,8 @@ class Pdo(Base):
 class Heartbeat(Base):
     EVENTS = [("state", n) for n in ("OPERATIONAL", "PRE-OPERATIONAL", "STOPPED", "RESET", "RESET COMMUNICATION")] + \
              [("cmd", cs) for cs in (1, 2, 128, 129)] + \
-             [("hb-frame", v) for v in (0, 100, 250)] + [("hb-sdo", v) for v in (0, 100, 250)]
+             [("hb-frame", v) for v in (0, 100, 250)] + [("hb-sdo", v) for v in (0, 100, 250)] + \
+             [("hb-cb", v, how) for v in (1, 2, 3) for how in ("local", "frame")]
     TABLE = {1: 5, 2: 4, 128: 127, 129: 0, 130: 0}
     NAMES = {"OPERATIONAL": 1, "PRE-OPERATIONAL": 128, "STOPPED": 2, "RESET": 129, "RESET COMMUNICATION": 130}
 
@@ -193,6 +194,13 @@ class Heartbeat(Base):
         super().__init__()
         self.node = self.net.add_node(canopen.LocalNode(6, od()))
         self.state, self.hb_ms, self.running = 0, 0, False
+
+        # the device application reacts to a write of a vendor object by changing its heartbeat time (re-entrancy: a
+        # write callback that writes another object of the same node)
+        def on_write(index, subindex, od, data, _n=self.node):
+            if index == 0x2000:
+                _n.sdo[0x1017].raw = {1: 100, 2: 0, 3: 250}.get(data[0], 0)
+        self.node.add_write_callback(on_write)
 
     def do(self, e):
         if e[0] == "state":
@@ -204,6 +212,14 @@ class Heartbeat(Base):
         elif e[0] == "cmd":
             self.net.notify(0, bytearray([e[1], 6]), 0.0)
             self.state = self.TABLE[e[1]]
+        elif e[0] == "hb-cb":
+            ms = {1: 100, 2: 0, 3: 250}[e[1]]
+            if e[2] == "local":
+                self.node.sdo[0x2000].raw = e[1]
+            else:
+                self.net.notify(0x606, bytearray(bytes([0x2F, 0x00, 0x20, 0, e[1], 0, 0, 0])), 0.0)
+            self.hb_ms = ms
+            self.running = ms > 0
         elif e[0] == "hb-frame":
             self.net.notify(0x606, bytearray(bytes([0x2B, 0x17, 0x10, 0]) + struct.pack("<H", e[1]) + bytes(2)), 0.0)
             self.hb_ms = e[1]
